@@ -89,8 +89,6 @@ def in_class(kid, d):
         return sr == 0 and not (c == XI or (c == RAW and s == VOX))
     if kid == "KF-C10-alac8":
         return c == CAF and s in ALAC and ch > 8
-    if kid == "KF-C10-vox-odd":
-        return c == RAW and s == VOX and FRAMES % 2 == 1
     return False
 
 
@@ -104,8 +102,6 @@ def has_signature(kid, d, errname):
     ok_w = d["w"] == ",".join([str(FRAMES)] * 4)
     if kid == "KF-C10-alac8":
         return ok_w and d["close"] == "0" and d["tmp"] == "1" and d["re"] == "0"
-    if kid == "KF-C10-vox-odd":
-        return d["w"] == ",".join([str(FRAMES + 1)] * 4) and d["close"] == "0" and d["tmp"] == "0" and d["re"] == "1"
     return False
 
 
